@@ -159,8 +159,11 @@ def tsub(ty, mapping):
 EVALUATED_BODIES = set()
 
 
+from core import helper_file as _helper_file
+
+
 class Interp:
-    def __init__(self, body, oracle, args, max_visits=10, max_paths=4000, facts=None, inline=None, depth=0, max_depth=8):
+    def __init__(self, body, oracle, args, max_visits=10, max_paths=4000, facts=None, inline=None, depth=0, max_depth=12):
         """args: list of initial values for _1.._argc (TOP for unknown).
         facts + inline(key) -> bool: crate-local callees for which inline(key) holds are interpreted
         too (bounded by max_depth), as are closures / fn items handed to Option/Result combinators."""
@@ -182,6 +185,7 @@ class Interp:
         self.init_state = {}
         self.mstate = {}   # model state of the path being executed (oracles may read and update it)
         self.inline_siblings = True
+        self.never_inline = None     # optional predicate(key): callees a rule wants answered by its oracle although they are helpers
         self.root_files = None
         self.dispatch = False    # resolve calls on trait objects by the abstract value's type (virtual dispatch)
         self.tsubst = {}         # generic parameter name -> type text it is instantiated with in this frame (inlined bodies)
@@ -254,14 +258,15 @@ class Interp:
         helper is part of the code being evaluated, whatever the rule's inlining predicate says)"""
         if not self.inline_siblings or not key:
             return False
+        if self.never_inline is not None and self.never_inline(key):
+            return False
         rf = self.root_files
         if rf is None:
             fn0 = getattr(self.body, "fn", None)
             rf = self.root_files = {fn0.file} if fn0 is not None else set()
         cf = self.facts.fn_opt(key)
-        if cf is None or cf.kind not in ("Fn", "AssocFn") or cf.vis in ("pub", "public") or cf.impl_trait:
-            return False
-        return cf.file in rf
+        here = getattr(getattr(self.body, "fn", None), "file", None)
+        return self.facts.is_private_helper(cf, set(rf) | ({here} if here else set()))
 
     def promoted_value(self, idx):
         """value of a promoted constant of this body's function (`&(0.0..=1.0)`, `&[1, 2]`): its small body is
@@ -321,6 +326,7 @@ class Interp:
             if len(names) == len(cg):
                 sub.tsubst = dict(zip(names, cg))
         sub.inline_siblings = self.inline_siblings
+        sub.never_inline = self.never_inline
         sub.root_files = self.root_files if self.root_files is not None else ({self.body.fn.file} if getattr(self.body, "fn", None) is not None else set())
         sub.slice_len = self.slice_len
         sub.index_hook = self.index_hook
@@ -366,7 +372,7 @@ class Interp:
         if isinstance(fv, tuple) and fv and fv[0] == "fn":
             key = fv[1].get("resolved", {}).get("key") or fv[1].get("key")
             fn = self.facts.fn_opt(key)
-            if fn is not None and (self.inline is None or self.inline(key)):
+            if fn is not None and (self.inline is None or self.inline(key) or self.sibling(key)):
                 if not fv[1].get("resolved", {}).get("key"):
                     self._call_gargs = fv[1].get("gargs_inst") or fv[1].get("gargs")
                 return self.call_body(fn, list(args))
@@ -937,8 +943,8 @@ class Interp:
                     if self.tsubst and self.facts is not None and f.get("kind") == "def" and f.get("trait") and not f.get("resolved", {}).get("key") and f.get("cgargs"):
                         # a trait method on a type PARAMETER of the enclosing generic body: resolved through the instantiation
                         st_ = f["cgargs"][0]
-                        if isinstance(st_, str) and (st_.startswith("mahf::") or st_.startswith("<mahf::")) and " as " not in st_:
-                            ik_ = "<%s as %s>::%s" % (st_.split("<")[0], f["trait"], f.get("name"))
+                        if isinstance(st_, str) and st_ and " as " not in st_ and not st_.startswith("dyn "):
+                            ik_ = "<%s as %s>::%s" % (st_.lstrip("&").replace("mut ", "", 1).split("<")[0] if st_.startswith("&") else st_.split("<")[0], f["trait"], f.get("name"))
                             if self.facts.fn_opt(ik_) is not None:
                                 f["resolved"] = {"key": ik_, "gargs": None, "inst": "by-instantiation"}
                                 ckey = ik_
@@ -955,7 +961,7 @@ class Interp:
                         # crate's comparison code (which would look inside the opaque symbols)
                         pre = self.oracle(self, env, f, args, t, bb, path)
                     if pre is not TOP:
-                        path.events.append(Event("call", bb, (ckey, f.get("gargs"), args, pre, t)))
+                        path.events.append(Event("call", bb, (ckey, (f.get("cgargs") or f.get("gargs")), args, pre, t)))
                         self.write_place(env, t["dest"], pre)
                         if t["target"] is None:
                             path.end = "diverge"
@@ -991,7 +997,7 @@ class Interp:
                             if cf is not None:
                                 self._call_gargs = self._inst_gargs
                                 outs = self.call_body(cf, fargs)
-                        if outs is None and f.get("kind") == "def" and self.inline and self.inline(ckey):
+                        if outs is None and f.get("kind") == "def" and self.inline and self.inline(ckey) and not (self.never_inline is not None and self.never_inline(ckey)):
                             cf = self.facts.fn_opt(ckey)
                             if cf is not None:
                                 ca = fargs
@@ -1050,7 +1056,7 @@ class Interp:
                                 tgt_ = href_get(self, env, av_)
                                 if not isinstance(tgt_, Sym):
                                     href_set(self, env, av_, TOP)
-                    path.events.append(Event("call", bb, (ckey, f.get("gargs"), args, res, t)))
+                    path.events.append(Event("call", bb, (ckey, (f.get("cgargs") or f.get("gargs")), args, res, t)))
                     if res == "DIVERGE":
                         path.events.append(Event("panic", bb, f.get("key")))
                         path.end = "panic"
@@ -1346,8 +1352,8 @@ def std_oracle(interp, env, f, args, t, bb, path):
     if key in ("core::convert::Into::into", "core::convert::From::from") and isinstance(a0, (int, float)) and not isinstance(a0, bool):
         dst = (f.get("gargs") or [""])[-1] if key.endswith("into") else (f.get("gargs") or [""])[0]
         return float(a0) if dst in ("f64", "f32") else a0
-    if key == "core::clone::Clone::clone":
-        return deref(a0)
+    if key == "core::clone::Clone::clone" or key == "dyn_clone::clone_box":
+        return deref(a0)        # (dyn_clone::clone_box is what `Box<dyn Trait>: Clone` of the crate's trait objects expands to)
     if key == "core::clone::Clone::clone_from" and len(args) == 2 and isinstance(a0, (Ref, HRef)):
         # the default method: `*self = source.clone()` (an overriding impl is resolved to its own body instead)
         v_ = deref(args[1])
